@@ -132,7 +132,11 @@ Halt(st) == /\ status' = st
 SetReg(d, v, t) == /\ reg' = [reg EXCEPT ![d] = v]
                    /\ rt'  = [rt  EXCEPT ![d] = t]
 
-Advance(n) == pc' = pc + n /\ steps' = steps + 1
+\* The interpreter decides which function a frame belongs to - and with it the frame's size (C07) -
+\* when it REACHES a function entry (pc 0 or the target of some local call), however it got
+\* there: by a call, a jump or falling through.
+FnAt(np, cur) == IF np \in env.entries THEN np ELSE cur
+Advance(n) == pc' = pc + n /\ steps' = steps + 1 /\ curFn' = FnAt(pc + n, curFn)
 
 (***************************************************************************)
 (* ALU (C01).                                                              *)
@@ -145,21 +149,21 @@ ExecAlu(i) ==
   IN /\ \E v \in AluResults(op, full, reg[i.dst], b) :
            SetReg(i.dst, v, TaintAlu(op, full, rt[i.dst], tb))
      /\ Advance(1)
-     /\ UNCHANGED <<env, mem, sw, frames, curFn, status, hlog, defd>>
+     /\ UNCHANGED <<env, mem, sw, frames, status, hlog, defd>>
 
 ExecEndian(i) ==
   LET k == i.imm \div 8
       v == IF i.opc = LE THEN EndianLE(reg[i.dst], k) ELSE EndianBE(reg[i.dst], k)
   IN /\ SetReg(i.dst, v, IF rt[i.dst] = "c" THEN "c" ELSE "u")
      /\ Advance(1)
-     /\ UNCHANGED <<env, mem, sw, frames, curFn, status, hlog, defd>>
+     /\ UNCHANGED <<env, mem, sw, frames, status, hlog, defd>>
 
 ExecLddw(i) ==
   LET nxt == At(Prog, pc + 1)
       v   == [k \in 1..NB |-> IF k <= 4 THEN ImmByte(i.imm, k-1) ELSE ImmByte(nxt.imm, k-5)]
   IN /\ SetReg(i.dst, v, "c")
      /\ Advance(2)
-     /\ UNCHANGED <<env, mem, sw, frames, curFn, status, hlog, defd>>
+     /\ UNCHANGED <<env, mem, sw, frames, status, hlog, defd>>
 
 (***************************************************************************)
 (* Loads, stores, atomic add (C01, C02, C18).  An access is performed iff  *)
@@ -177,7 +181,7 @@ DoLoad(d, addr, len, ta) ==
        IN /\ SetReg(d, ReadBytes(r, off, len), LoadTaint(r, off, len))
           /\ defd' = (defd /\ ta # "u")
           /\ Advance(1)
-          /\ UNCHANGED <<env, mem, sw, frames, curFn, status, hlog>>
+          /\ UNCHANGED <<env, mem, sw, frames, status, hlog>>
 
 ExecLdx(i) == DoLoad(i.dst, Add(reg[i.src], OffWord(i)), Width(i.opc), rt[i.src])
 
@@ -196,7 +200,7 @@ DoStore(addr, len, val, ta, tv) ==
                    ELSE sw \ (off..(off+len-1))
           /\ defd' = (defd /\ ta # "u" /\ (r = R_STACK \/ tv = "c"))
           /\ Advance(1)
-          /\ UNCHANGED <<env, reg, rt, frames, curFn, status, hlog>>
+          /\ UNCHANGED <<env, reg, rt, frames, status, hlog>>
 
 ExecSt(i)  == DoStore(Add(reg[i.dst], OffWord(i)), Width(i.opc), ImmWord(i), rt[i.dst], "c")
 ExecStx(i) == DoStore(Add(reg[i.dst], OffWord(i)), Width(i.opc), reg[i.src], rt[i.dst], rt[i.src])
@@ -217,13 +221,13 @@ ExecXadd(i) ==
                       ELSE IF tv = "c" THEN sw ELSE sw \ (off..(off+len-1))
              /\ defd' = (defd /\ rt[i.dst] # "u" /\ (r = R_STACK \/ tv = "c"))
              /\ Advance(1)
-             /\ UNCHANGED <<env, reg, rt, frames, curFn, status, hlog>>
+             /\ UNCHANGED <<env, reg, rt, frames, status, hlog>>
 
 (***************************************************************************)
 (* Branches (C01): target pc + 1 + off at any distance.                    *)
 (***************************************************************************)
 ExecJa(i) == /\ Advance(1 + i.off)
-             /\ UNCHANGED <<env, reg, rt, mem, sw, frames, curFn, status, hlog, defd>>
+             /\ UNCHANGED <<env, reg, rt, mem, sw, frames, status, hlog, defd>>
 
 \* Named deviation (known finding, enabled only when its key is in env.dev): the pinned
 \* interpreter zero-extends the immediate of the 64-bit equality / unsigned comparisons.
@@ -240,7 +244,7 @@ ExecCondJmp(i, D) ==
       tb   == IF SrcBit(i.opc) = 1 THEN rt[i.src] ELSE "c"
   IN /\ Advance(IF Cond(op, full, reg[i.dst], b) THEN 1 + i.off ELSE 1)
      /\ defd' = (defd /\ TaintCondOK(op, full, rt[i.dst], tb))
-     /\ UNCHANGED <<env, reg, rt, mem, sw, frames, curFn, status, hlog>>
+     /\ UNCHANGED <<env, reg, rt, mem, sw, frames, status, hlog>>
 
 (***************************************************************************)
 (* Helper calls (C08).  hr is the environment's answer: the helper's       *)
@@ -257,7 +261,7 @@ ExecCallHelper(i, hr) ==
        /\ rt'  = [r \in 0..10 |-> IF r = 0 THEN "c" ELSE IF r \in 1..5 THEN "u" ELSE rt[r]]
        /\ defd' = (defd /\ \A r \in 1..5 : rt[r] = "c")
        /\ Advance(1)
-       /\ UNCHANGED <<env, mem, sw, frames, curFn, status>>
+       /\ UNCHANGED <<env, mem, sw, frames, status>>
 
 (***************************************************************************)
 (* Local calls and returns (C07).                                          *)
@@ -269,8 +273,7 @@ ExecCallLocal(i) ==
                                     saved  |-> [r \in 6..9 |-> reg[r]],
                                     savedt |-> [r \in 6..9 |-> rt[r]]])
        /\ reg' = [reg EXCEPT ![10] = SubN(reg[10], size)]
-       /\ curFn' = pc + 1 + i.imm
-       /\ Advance(1 + i.imm)
+       /\ Advance(1 + i.imm)                  \* (the target is a function entry: curFn' = the target)
        /\ UNCHANGED <<env, rt, mem, sw, status, hlog, defd>>
 
 ExecExit ==
@@ -284,7 +287,7 @@ ExecExit ==
        /\ reg' = [r \in 0..10 |-> IF r \in 6..9 THEN f.saved[r]
                                    ELSE IF r = 10 THEN AddN(reg[10], f.size) ELSE reg[r]]
        /\ rt'  = [r \in 0..10 |-> IF r \in 6..9 THEN f.savedt[r] ELSE rt[r]]
-       /\ curFn' = f.fn
+       /\ curFn' = FnAt(f.ret, f.fn)
        /\ pc' = f.ret
        /\ steps' = steps + 1
        /\ UNCHANGED <<env, mem, sw, status, hlog, defd>>
